@@ -328,19 +328,48 @@ static bool schnorr_run_once(std::vector<std::pair<std::string, std::string> > &
 	return finish();
 }
 
-static bool dss_run_once(std::vector<std::pair<std::string, std::string> > &pending, const Grp &G, size_t n, size_t t, const std::vector<bool> &faulty, int mk, bool refresh, uint64_t seed) {
+static bool dss_run_once(std::vector<std::pair<std::string, std::string> > &pending, const Grp &G, size_t n, size_t t, const std::vector<bool> &faulty_in, int mk, bool refresh, uint64_t seed, const std::map<size_t, Deviation> &devs) {
+	std::vector<bool> faulty(faulty_in), lib_faulty(faulty_in); for (auto &d : devs) faulty[d.first] = true;
 	std::vector<std::pair<std::string, std::string> > fails; std::vector<std::string> recs;
 	auto propfail = [&](const std::string &k, const std::string &w) { fails.push_back(std::make_pair(k, w)); };
 	mpz_t m; mpz_init(m); msg_value(mk, m, G, true);
-	bool anyf = std::find(faulty.begin(), faulty.end(), true) != faulty.end();
+	bool anyf = std::find(lib_faulty.begin(), lib_faulty.end(), true) != lib_faulty.end();
 	// a silent faulty signer costs one time-out per delivery round (about a hundred rounds): short time-outs for such runs
-	ForkResult FR = fork_parties(n, t, seed, anyf ? aiounicast::aio_timeout_very_short : aiounicast::aio_timeout_long, anyf ? 600 : 900, [&](size_t i, aiounicast *aiou, CachinKursawePetzoldShoupRBC *rbc, std::ostream &res) {
+	// (a scripted signer whose own VSS fails leaves Sign and is silent afterwards: short time-outs, and time-outs against it are expected)
+	std::set<size_t> expected_silent; bool dsilent = false; for (auto &d : devs) if (d.second.dss_step) { expected_silent.insert(d.first); if (d.second.dss_mode == 0) dsilent = true; }
+	ForkResult FR = fork_parties(n, t, seed, (anyf || dsilent) ? aiounicast::aio_timeout_very_short : aiounicast::aio_timeout_long, anyf ? 600 : 900, [&](size_t i, aiounicast *aiou, CachinKursawePetzoldShoupRBC *rbc, std::ostream &res) {
 		CanettiGennaroJareckiKrawczykRabinDSS dss(n, t, i, G.p, G.q, G.g, G.h, mpz_sizeinbase(G.p, 2), mpz_sizeinbase(G.q, 2), false, false);
 		std::ostringstream e1, e2, e3, e4; mpz_t r, s, r2, s2; mpz_init(r); mpz_init(s); mpz_init(r2); mpz_init(s2);
 		bool g = false, ok = false, rf = false, ok2 = false; std::string exc;
 		try {
-			g = dss.Generate(aiou, rbc, e1, faulty[i]);
-			if (g) ok = dss.Sign(n, i, m, r, s, aiou, rbc, e2, faulty[i]);
+			g = dss.Generate(aiou, rbc, e1, lib_faulty[i]);
+			if (g && devs.count(i) && devs.at(i).dss_step && tamper_broadcast()) {
+				// scripted deviation inside Step 1d / 2d of Sign: the RBC identifiers of Sign and of this party's VSS of v_i are recomputed
+				// (CachinKursawePetzoldShoupRBC::setID hashes the caller's string and the previous identifier), the party runs honest code
+				// and exactly one of its broadcasts is changed
+				const Deviation dv = devs.at(i);
+				auto nextID = [](const std::string &call, mpz_srcptr last, mpz_ptr out) { std::stringstream x; x << "CachinKursawePetzoldShoupRBC called from [" << call << "] with last ID = " << last; tmcg_mpz_shash(out, x.str()); };
+				std::stringstream ss1; ss1 << "CanettiGennaroJareckiKrawczykRabinDSS::Sign()" << dss.p << dss.q << dss.g << dss.h << dss.n << dss.t << n << m;
+				mpz_t *ids = new mpz_t[2]; mpz_init(ids[0]); mpz_init(ids[1]);
+				nextID(ss1.str(), rbc->ID, ids[0]);
+				std::stringstream ss2; ss2 << "PedersenVSS::Share()" << dss.p << dss.q << dss.g << dss.h << n << dss.t << i << (dv.dss_step == 1 ? "v_i_vss" : "vv_i_vss") << "[dealer = " << i << "]";
+				nextID(ss2.str(), ids[0], ids[1]);
+				struct St { bool seen_vss = false, done = false; std::vector<std::string> seqs; }; St *st = new St();
+				mpz_srcptr qq = G.q;
+				tamper_broadcast()->decide_full = [ids, st, dv, qq](const std::vector<mpz_srcptr> &msg, mpz_ptr rep) -> int {
+					if (mpz_cmp(msg[0], ids[1]) == 0) {                       // inside the own VSS of v_i
+						std::string sq = hx(msg[2]); bool first = !st->seen_vss || (!st->seqs.empty() && st->seqs[0] == sq);
+						if (!st->seen_vss) { st->seen_vss = true; st->seqs.clear(); st->seqs.push_back(sq); }
+						if (dv.dss_mode == 0 && first && st->seqs[0] == sq) { mpz_add_ui(rep, msg[4], 1); return 1; }
+						return 0; }
+					if (dv.dss_mode == 1 && st->seen_vss && mpz_cmp(msg[0], ids[0]) == 0) {          // Sign's own channel after the VSS phase
+						std::string sq = "S" + hx(msg[2]); size_t idx = 0; for (; idx < st->seqs.size(); idx++) if (st->seqs[idx] == sq) break;
+						if (idx == st->seqs.size()) st->seqs.push_back(sq);
+						// seqs[0] is the VSS marker; own broadcasts on Sign's channel from here: DD, DD', EE, d_i, d'_i, then the responses
+						if (idx == 6) { mpz_add_ui(rep, msg[4], 1); mpz_mod(rep, rep, qq); return 1; } }
+					return 0; };
+			}
+			if (g) ok = dss.Sign(n, i, m, r, s, aiou, rbc, e2, lib_faulty[i]);
 			if (refresh && g) { rf = dss.Refresh(n, i, aiou, rbc, e3, false); if (rf) ok2 = dss.Sign(n, i, m, r2, s2, aiou, rbc, e4, false); }
 		} catch (std::exception &e) { exc = e.what(); }
 		bool v = false, v2 = false; try { v = ok && dss.Verify(m, r, s); v2 = ok2 && dss.Verify(m, r2, s2); } catch (...) {}
@@ -355,12 +384,13 @@ static bool dss_run_once(std::vector<std::pair<std::string, std::string> > &pend
 		res << "qual="; for (size_t k = 0; k < dss.QUAL.size(); k++) res << (k ? "," : "") << dss.QUAL[k]; res << "\n";
 		res << "refresh=" << rf << "\n" << "ret2=" << ok2 << "\n" << "r2=" << hx(r2) << "\n" << "s2=" << hx(s2) << "\n" << "verify2=" << v2 << "\n";
 		{ std::string l = e1.str().substr(e1.str().size() > 600 ? e1.str().size() - 600 : 0) + "|SIGN|" + e2.str().substr((e2.str().size() > 2500 && !getenv("VERIF_DEBUG")) ? e2.str().size() - 2500 : 0); std::replace(l.begin(), l.end(), '\n', '~'); res << "log=" << l << "\n"; }
-	});
+	}, devs.empty() ? 0 : &devs, G.q, 0, &faulty);
 	std::string fs; for (size_t i = 0; i < n; i++) fs += faulty[i] ? '1' : '0';
+	for (auto &d : devs) fs += " P" + std::to_string(d.first) + " deviates in Step " + std::to_string(d.second.dss_step) + "d (" + (d.second.dss_mode ? "ZNPoK response" : "VSS commitment") + ")";
 	std::string ctx = "n=" + std::to_string(n) + " t=" + std::to_string(t) + " faulty=" + fs + " refresh=" + std::to_string(refresh) + " seed=" + std::to_string(seed) + " m=" + hx(m) + " p=" + hx(G.p) + " q=" + hx(G.q) + " g=" + hx(G.g) + " h=" + hx(G.h);
 	auto finish = [&]() {
 		if (fails.empty()) { for (auto &r : recs) fputs(r.c_str(), stdout); return true; }
-		if (FR.timing_trouble()) { fprintf(stderr, "c16: dss run inconclusive (time-out expired in the run; %s): %s\n", fails[0].first.c_str(), ctx.c_str()); pending = fails; return false; }
+		if (FR.timing_trouble(expected_silent)) { fprintf(stderr, "c16: dss run inconclusive (time-out expired in the run; %s): %s\n", fails[0].first.c_str(), ctx.c_str()); pending = fails; return false; }
 		for (auto &f : fails) verif::propfail(f.first, f.second);
 		return true; };
 	fprintf(stderr, "c16: dss %s wall=%.1fs\n", ctx.substr(0, 56).c_str(), FR.wall);
@@ -443,14 +473,14 @@ static void schnorr_run(const Grp &G, size_t n, size_t t, const std::vector<bool
 	n_sign++;
 	attempts("schnorr", n, [&](int attempt, std::vector<std::pair<std::string, std::string> > &pend) { return schnorr_run_once(pend, G, n, t, faulty, mk, seed + 7777 * attempt, devs, silent); });
 }
-static void dss_run(const Grp &G, size_t n, size_t t, const std::vector<bool> &faulty, int mk, bool refresh, uint64_t seed) {
+static void dss_run(const Grp &G, size_t n, size_t t, const std::vector<bool> &faulty, int mk, bool refresh, uint64_t seed, const std::map<size_t, Deviation> &devs = std::map<size_t, Deviation>()) {
 	n_sign++;
-	attempts("dss", n, [&](int attempt, std::vector<std::pair<std::string, std::string> > &pend) { return dss_run_once(pend, G, n, t, faulty, mk, refresh, seed + 7777 * attempt); });
+	attempts("dss", n, [&](int attempt, std::vector<std::pair<std::string, std::string> > &pend) { return dss_run_once(pend, G, n, t, faulty, mk, refresh, seed + 7777 * attempt, devs); });
 }
 // dev >= 0 (Schnorr only): party dev sends a wrong private share to `victims` in the pair_base/2-th sharing (0 = key DKG, 1 = nonce DKG of Sign)
 // silent >= 0: that signer takes part in Generate and then stays away from Sign (its key share is reconstructed in public); badrec >= 0: that
 // signer broadcasts wrong reconstruction shares
-struct Cfg { int kind; size_t n, t; std::vector<size_t> bad; int mk; bool refresh; long dev = -1; std::vector<size_t> victims; size_t pair_base = 0; long silent = -1; long badrec = -1; };
+struct Cfg { int kind; size_t n, t; std::vector<size_t> bad; int mk; bool refresh; long dev = -1; std::vector<size_t> victims; size_t pair_base = 0; long silent = -1; long badrec = -1; int dss_step = 0; int dss_mode = 0; };
 
 int main(int argc, char **argv) {
 	Args A(argc, argv);
@@ -473,6 +503,7 @@ int main(int argc, char **argv) {
 			cfgs.push_back({0, 4, 1, pick(4, 1), 4, false});
 			cfgs.push_back({1, 3, 1, {}, 4, false});
 			cfgs.push_back({0, 7, 2, {}, 4, false, -1, {}, 0, 6, 0});      // P_6 silent in Sign, P_0 broadcasts a wrong reconstruction share
+			{ Cfg c = {1, 4, 1, {}, 2, false}; c.dev = 1; c.dss_step = 2; c.dss_mode = 1; cfgs.push_back(c); }   // DSS: P_1 gives a wrong ZNPoK response inside Step 2d -> Step 2e reconstruction
 		} else {
 			int mk = 0;
 			for (size_t n = 3; n <= 7; n++) { size_t t = (n - 1) / 2;
@@ -491,6 +522,9 @@ int main(int argc, char **argv) {
 			cfgs.push_back({0, 7, 3, {}, mk++, false, -1, {}, 0, 3, 1});
 			cfgs.push_back({0, 5, 2, {3}, mk++, false, -1, {}, 0, -1, 0});
 			cfgs.push_back({0, 7, 2, {5}, mk++, false, -1, {}, 0, -1, 0});
+			// DSS::Sign: a signer that is correct up to Step 1d resp. 2d and fails there (VSS commitment / ZNPoK response): Steps 1e, 2e
+			for (int st = 1; st <= 2; st++) for (int md = 0; md < 2; md++) { if (st == 1 && md == 1) continue;   /* (the response position differs in Step 1d; that run only ran into the wall-clock limit) */ Cfg c = {1, 4, 1, {}, mk++, false}; c.dev = (long)gen().below(4); c.dss_step = st; c.dss_mode = md; cfgs.push_back(c); }
+			{ Cfg c = {1, 5, 2, {}, mk++, false}; c.dev = 0; c.dss_step = 2; c.dss_mode = 1; cfgs.push_back(c); }
 			// a signer deviating towards a subset only (wrong private share, complaint answered correctly) in the nonce DKG / the key DKG.
 			// Observation (docs/C16.md): the victim of such a resolved complaint loses synchronisation in GennaroJareckiKrawczykRabinDKG
 			// (stale cached g^s_ij), so these runs end "inconclusive" (an honest signer fails after time-outs); two configurations only.
@@ -502,10 +536,11 @@ int main(int argc, char **argv) {
 			uint64_t sd = gen().next() % 1000000;
 			if (ci % parts != part) continue;
 			std::map<size_t, Deviation> devs;
-			if (c.dev >= 0) { Deviation d; for (size_t v : c.victims) d.wrong.insert(v); d.pair_base = c.pair_base; devs[(size_t)c.dev] = d; }
+			if (c.dev >= 0 && !c.dss_step) { Deviation d; for (size_t v : c.victims) d.wrong.insert(v); d.pair_base = c.pair_base; devs[(size_t)c.dev] = d; }
+			if (c.dev >= 0 && c.dss_step) { Deviation d; d.dss_step = c.dss_step; d.dss_mode = c.dss_mode; devs[(size_t)c.dev] = d; }
 			if (c.badrec >= 0) { Deviation d; d.bad_recon = true; devs[(size_t)c.badrec] = d; }
 			std::set<size_t> silent; if (c.silent >= 0) silent.insert((size_t)c.silent);
-			if (c.kind == 0) schnorr_run(G, c.n, c.t, f, c.mk, sd, devs, silent); else dss_run(G, c.n, c.t, f, c.mk, c.refresh, sd); }
+			if (c.kind == 0) schnorr_run(G, c.n, c.t, f, c.mk, sd, devs, silent); else dss_run(G, c.n, c.t, f, c.mk, c.refresh, sd, devs); }
 	}
 	fprintf(stderr, "c16: %lu verifier calls, %lu signing runs\n", n_ver, n_sign);
 	return 0;
